@@ -77,9 +77,14 @@ func (handler *InvHandler) Handle(ctx context.Context, m wire.Message) ([]wire.M
 				}
 			}
 
-		// The trusted node shouldn't get block inventories because new blocks will be announced
-		//   with headers since we sent a "sendheaders" message.
+		// New blocks are normally announced with headers since we sent a "sendheaders" message,
+		//   but a node falls back to block inventories when its headers would not connect or for
+		//   many blocks at once. Ask for headers again so that tip is not missed.
 		case wire.InvTypeBlock:
+			if !handler.state.BlockIsRequested(&item.Hash) &&
+				!handler.state.BlockIsToBeRequested(&item.Hash) {
+				handler.state.ClearInSync()
+			}
 		default:
 		}
 	}
